@@ -295,7 +295,7 @@ func (e *Exec) conv(dst, src types.Type, x Value) Value {
 				}
 				out := make(SliceV, len(s))
 				for i := 0; i < len(s); i++ {
-					out[i] = c.BVConstU(8, uint64(s[i]))
+					out[i] = e.intConst(8, int64(s[i]))
 				}
 				return out
 			case *types.Basic:
@@ -485,7 +485,7 @@ func (e *Exec) lookup(th *Thread, in *ssa.Lookup, x, idx Value) Value {
 		if i < 0 {
 			panic(goPanic{msg: "index out of range (string)"})
 		}
-		return e.ctx.BVConstU(8, uint64(x[i]))
+		return e.intConst(8, int64(x[i]))
 	}
 	panic(pathAbort{"error", fmt.Sprintf("lookup on %T", x)})
 }
@@ -664,7 +664,7 @@ func (e *Exec) callBuiltin(th *Thread, b *ssa.Builtin, args []Value) Value {
 		case string:
 			out := dst
 			for i := 0; i < len(src); i++ {
-				out = append(out, c.BVConstU(8, uint64(src[i])))
+				out = append(out, e.intConst(8, int64(src[i])))
 			}
 			return out
 		case nil:
@@ -693,7 +693,7 @@ func (e *Exec) callBuiltin(th *Thread, b *ssa.Builtin, args []Value) Value {
 				n = len(dst)
 			}
 			for i := 0; i < n; i++ {
-				dst[i] = c.BVConstU(8, uint64(src[i]))
+				dst[i] = e.intConst(8, int64(src[i]))
 			}
 		}
 		return e.intConst(64, int64(n))
